@@ -243,12 +243,25 @@ func c08sched(c *core.Ctx) {
 		return true
 	}
 	var scs []scen
-	for _, q := range []byte{0, 1} {
+	// (which connection is the older one decides which of them the default schedule serves first)
+	for _, q := range []byte{0, 1, 2, 3} {
 		q := q
-		scs = append(scs, scen{fmt.Sprintf("retained replace || subscribe (QoS %d)", q), func() {
+		sFirst := q >= 2
+		q = q % 2
+		nm := fmt.Sprintf("retained replace || subscribe (QoS %d)", q)
+		if sFirst {
+			nm = fmt.Sprintf("retained replace || subscribe (QoS %d, the subscriber's connection is the older one)", q)
+		}
+		scs = append(scs, scen{nm, func() {
 			t := newTD()
-			p := t.connect("P", 0, 65535, false)
-			s := t.connect("S", 0, 65535, false)
+			var p, s *tdConn
+			if sFirst {
+				s = t.connect("S", 0, 65535, false)
+				p = t.connect("P", 0, 65535, false)
+			} else {
+				p = t.connect("P", 0, 65535, false)
+				s = t.connect("S", 0, 65535, false)
+			}
 			p.rc.Send(&refcodec.Packet{Type: refcodec.PUBLISH, Topic: []byte("r"), Retain: true, QoS: 1, ID: 1, Payload: []byte(old)})
 			t.settleExcept()
 			if vsched.Failed() {
@@ -447,8 +460,8 @@ func c08sched(c *core.Ctx) {
 		}
 		sc := sc
 		d := dev
-		if si < 2 && d < 2 {
-			// the two small "retained replace || subscribe" scenarios: the window between
+		if si < 4 && d < 2 {
+			// the four small "retained replace || subscribe" scenarios: the window between
 			// collecting the retained message and encoding it needs two deviations
 			d = 2
 		}
